@@ -103,18 +103,6 @@ Definition located_b (st : mstate) : bool :=
   forallb (fun kv => forallb (fun s => publishes_at (m_repo st) s =? s_at s) (sets_of (snd kv))
                      && pend_ok_b (m_repo st) (snd kv)) (m_classes st).
 
-(** Hypothesis of the theorems about the environment, evaluated along the run of the case. *)
-Definition admissible_b (st : mstate) (op : mop) : bool :=
-  match op with OUpdateRepo r => negb (existsb (fun x => x =? r) (m_depr st)) | _ => true end.
-
-Fixpoint ops_adm_b (st : mstate) (ops : list mop) : bool :=
-  match ops with
-  | [] => true
-  | op :: r => admissible_b st op && match mstep st op with Some st' => ops_adm_b st' r | None => true end
-  end.
-
-Definition m_adm (c : mcase) : bool := ops_adm_b (mc_pre c) (mc_ops c).
-
 Fixpoint lookup_b (k : N) (l : list (N * bool)) : option bool :=
   match l with [] => None | (k', b) :: r => if k' =? k then Some b else lookup_b k r end.
 
@@ -128,7 +116,7 @@ Definition present_ok (c : mcase) : bool :=
 Definition state_ok (st : mstate) : bool := inv_b st && safe_b st && located_b st.
 
 Definition m_ok (c : mcase) : bool :=
-  m_adm c && state_ok (mc_mid c) && state_ok (mc_post c)
+  state_ok (mc_mid c) && state_ok (mc_post c)
   && (if mc_synced c then present_ok c && match mc_leftover c with [] => true | _ => false end else true).
 
 Fixpoint failing_from (f : mcase -> bool) (i : N) (l : list mcase) : list N :=
